@@ -20,6 +20,8 @@ structure Suite where
   σ : Type
   init : σ
   step : σ → List String → σ × String
+  /-- when true, `step` receives the whole line (newline stripped) as a single token -/
+  raw : Bool := false
 
 partial def loop (h : IO.FS.Stream) (out : IO.FS.Stream) (s : Suite) (st : s.σ) : IO Unit := do
   let line ← h.getLine
@@ -33,7 +35,7 @@ partial def loop (h : IO.FS.Stream) (out : IO.FS.Stream) (s : Suite) (st : s.σ)
     if t.startsWith "#" then
       out.putStrLn "#"; loop h out s st
     else
-      let (st', o) := s.step st ts
+      let (st', o) := s.step st (if s.raw then [(line.replace "\n" "").replace "\r" ""] else ts)
       out.putStrLn o
       loop h out s st'
 
